@@ -15,6 +15,8 @@ func checkC05(c *Ctx) {
 	c.NotDecided = []string{"injectivity as a theorem about all strings (O3 is its structural core)", "pointer identity for concrete pairs of derivations"}
 	eng := c.newLockEngine()
 	c.checkDoubleChecked("O1 get-or-create", eng)
+	c.checkPrivateKeyBuffer("O1 private-key-buffer")
+	c.checkRootInEveryShard("O1 root-in-every-shard")
 	// O5 (shared with C04 O4 / C07 O3): the key a scope is registered under keeps describing it.
 	// A scope's tags are a private copy (a caller who keeps mutating the map it passed in would
 	// otherwise change the tag set of a scope that stays registered under the old key), and an
@@ -493,4 +495,121 @@ func (c *Ctx) checkInsertionSort(rule string) {
 		}
 	})
 	c.check(ok, rule, c.fnKey(fn), fn.Pos(), "insertion sort: swaps while keys[j] < keys[j-1]", "insertionSort does not order adjacent elements by keys[j] < keys[j-1]: the keys are not sorted ascending, equal tag sets yield different keys")
+}
+
+// checkRootInEveryShard: Subscope looks an identity up only in the shard its key hashes to, and the
+// hash seed is random: the root scope is found by a derivation that ends in the root's own identity
+// (Tagged(nil), Tagged({}), tags the root already has) only if the root is registered in EVERY shard.
+// Decided on the registry constructor: the insertion of the root into a bucket map sits in a loop whose
+// induction variable covers 0..shardCount-1, is executed in every iteration, and targets subscopes[i].
+func (c *Ctx) checkRootInEveryShard(rule string) {
+	fM, fSubs := c.field("", "scopeBucket", "s"), c.field("", "scopeRegistry", "subscopes")
+	scopeT := c.named("", "scope")
+	if fM == nil || fSubs == nil || scopeT == nil {
+		c.missing(rule, "tally.scopeBucket.s / scopeRegistry.subscopes")
+		return
+	}
+	n := 0
+	for _, fn := range c.funcsOfPkg("") {
+		// the constructor: stores a MakeSlice into scopeRegistry.subscopes
+		var ms *ssa.MakeSlice
+		instrsOf(fn, func(in ssa.Instruction) {
+			if st, ok := in.(*ssa.Store); ok {
+				if f, _ := addrField(st.Addr); f == fSubs {
+					if m, isM := stripConv(st.Val).(*ssa.MakeSlice); isM {
+						ms = m
+					}
+				}
+			}
+		})
+		if ms == nil {
+			continue
+		}
+		n++
+		key := c.fnKey(fn)
+		c.sawFunc(key)
+		var rootParam ssa.Value
+		for _, p := range fn.Params {
+			if deref(p.Type()) == types.Type(scopeT) {
+				rootParam = p
+			}
+		}
+		var ins []*ssa.MapUpdate
+		instrsOf(fn, func(in ssa.Instruction) {
+			if mu, ok := in.(*ssa.MapUpdate); ok {
+				if f, _ := loadedField(mu.Map); f == fM && rootParam != nil && canon(stripConv(mu.Value)) == rootParam {
+					ins = append(ins, mu)
+				}
+			}
+		})
+		if len(ins) == 0 {
+			c.bad(rule, key, fn.Pos(), "the registry constructor does not register the root scope in the shards: a derivation that ends in the root's own identity creates a second scope with the same prefix and tags")
+			continue
+		}
+		okAny := false
+		why := ""
+		for _, mu := range ins {
+			_, bucket := loadedField(mu.Map)
+			var fl *fwdLoop
+			for _, l := range countingLoops(fn) {
+				if !l.loop.Blocks[mu.Block()] {
+					continue
+				}
+				boundOK := stripConv(canon(l.bound)) == stripConv(canon(ms.Len))
+				if l.lenArg != nil {
+					if f, _ := loadedField(l.lenArg); f == fSubs {
+						boundOK = true
+					}
+				}
+				if boundOK {
+					fl = l
+				}
+			}
+			if fl == nil {
+				why = "the root is inserted outside a loop that runs over every shard index 0..shardCount-1 (it is registered in some shards only)"
+				continue
+			}
+			every := true
+			for _, latch := range fl.loop.Latch {
+				if !mu.Block().Dominates(latch) {
+					every = false
+				}
+			}
+			if !every {
+				why = "the root is not inserted in every iteration of the shard loop"
+				continue
+			}
+			// the bucket is subscopes[i]
+			okBucket := false
+			if ld, isLd := canon(bucket).(*ssa.UnOp); isLd && ld.Op == token.MUL {
+				if ia, isIA := ld.X.(*ssa.IndexAddr); isIA && stripConv(canon(ia.Index)) == stripConv(canon(fl.idx)) {
+					if f, _ := loadedField(ia.X); f == fSubs {
+						okBucket = true
+					}
+				}
+			}
+			if al, isAl := canon(bucket).(*ssa.Alloc); isAl && !okBucket {
+				// the bucket allocated in this iteration and stored into subscopes[i]
+				if al.Referrers() != nil {
+					for _, r := range *al.Referrers() {
+						if st, isSt := r.(*ssa.Store); isSt && st.Val == ssa.Value(al) {
+							if ia, isIA := st.Addr.(*ssa.IndexAddr); isIA && stripConv(canon(ia.Index)) == stripConv(canon(fl.idx)) {
+								if f, _ := loadedField(ia.X); f == fSubs {
+									okBucket = true
+								}
+							}
+						}
+					}
+				}
+			}
+			if !okBucket {
+				why = "the bucket that receives the root is not subscopes[i] of the shard loop"
+				continue
+			}
+			okAny = true
+		}
+		c.check(okAny, rule, key, ins[0].Pos(), "the root is registered in every shard (inserted into subscopes[i] in each iteration of the loop over 0..shardCount-1)",
+			why+": Subscope looks a key up only in the shard it hashes to under a random seed, so a derivation that ends in the root's own identity misses the root and creates a twin scope; what is recorded through the two handles is reported, and shown by Snapshot, as two competing entries under one name")
+	}
+	c.floor(rule, n, 1)
 }
